@@ -27,7 +27,7 @@ def obligations(tier):
         Ob('D3', 'S', 'snapshot loaded only when tag == MAC(digest parsed from the name); that digest is what gets verified', 'hex name 2 chars, tag 4 or 6 chars',
            [F['ds']], module=H, func='d3_tag', timeout=600),
         Ob('E.corrupt', 'E', 'restore (twice, cache on) after corrupting one object: raises or restores the newest version exactly',
-           '2 modes x 16 object slots x 6 kinds x <=40 positions = 7680 vectors (3 kinds use 8 positions, delete 1)',
+           '2 modes x 16 object slots x 7 kinds x <=40 positions = 8960 vectors (3 kinds use 8 positions, delete 1, move = replay under another name + removal 2)',
            [F['rs'], F['dc'], F['dl']], module=H, func='e_corrupt', timeout=1200, shards=16),
         Ob('E.big', 'E', 'one file of ~1100 / ~2500 chunk references (more than any plausible batching window): the chunk object behind the first / 8th / 1002nd / middle / last-1003rd / last reference damaged (flip, truncate, swap, delete, replay, flip + swap of two others): restore raises or is exact',
            '2 modes x 2 sizes x 6 positions x 6 damages x concurrency {2,5} = 288', ['replicat.repository:Repository.restore', 'replicat.repository:Repository._download_chunk'], module=H, func='e_big_corrupt', timeout=1200, shards=8),
